@@ -85,7 +85,7 @@ func runC23(c c23Case, rec *ev.Rec) error {
 		rec.Discard() // a C01-level failure of the history itself is not judged here
 		return nil
 	}
-	knownTrigger := r.AnyKnownTrigger()
+	knownTrigger := r.ReplayDivergenceTrigger()
 	if err := r.DB.Close(); err != nil {
 		return ev.Failf("Close: %v", err)
 	}
